@@ -5,9 +5,12 @@ ROOT = os.path.dirname(os.path.dirname(os.path.abspath(__file__)))
 ids = [json.loads(l)["id"] for l in open(os.path.join(ROOT, "properties.jsonl"))]
 na_reasons = json.load(open(os.path.join(ROOT, "tools", "not_applicable.json")))
 checks, na = [], []
+hold = json.load(open(os.path.join(ROOT, "tools", "hold.json")))   # slices present but not yet claimed
 for pid in ids:
     mp = os.path.join(ROOT, "props", pid, "meta.json")
-    if os.path.exists(mp) and os.path.exists(os.path.join(ROOT, "props", pid, "check.py")):
+    if pid in hold:
+        na.append({"property_id": pid, "reason": hold[pid]})
+    elif os.path.exists(mp) and os.path.exists(os.path.join(ROOT, "props", pid, "check.py")):
         m = json.load(open(mp))
         checks.append({
             "property_id": pid,
